@@ -986,3 +986,181 @@ Proof.
   - intro K. rewrite headers_get. cbn [env_get]. apply fold_join.
   - intros E HE. rewrite headers_get. cbn [env_get]. apply fold_last. exact HE.
 Qed.
+
+(* ------------------------------------------------------------------ make_environ: targets with an authority *)
+Definition scheme_ok (s : str) : bool := match s with c :: _ => is_alpha c && forallb scheme_char s | [] => false end.
+Definition netloc_char (c : N) : bool :=
+  printable c && negb (c =? SLASH) && negb (c =? QMARK) && negb (c =? HASH) && negb (c =? LBRACK) && negb (c =? RBRACK)
+  && negb (c =? PCT).
+Definition netloc_ok (a : str) : bool := nonempty_str a && forallb netloc_char a.
+
+Lemma pct_enc_split keep b q : forallb (fun c => c <? 256) b = true -> query_ok q = true ->
+  let E := pct_enc keep b in
+  forallb printable (SLASH :: E ++ qpart q) = true /\
+  partition1 HASH (SLASH :: E ++ qpart q) = (SLASH :: E ++ qpart q, None) /\
+  partition1 QMARK (SLASH :: E ++ qpart q) = (SLASH :: E, match q with Some s => Some s | None => None end).
+Proof.
+  intros Hb Hq E. pose proof (pct_enc_chars keep b Hb) as HE. fold E in HE.
+  assert (HEp : forallb printable E = true).
+  { eapply forallb_impl; [|exact HE]. intros c Hc. cbv beta in Hc.
+    apply andb_prop in Hc. destruct Hc as [Hc _]. apply andb_prop in Hc. apply Hc. }
+  assert (HEh : forallb (fun c => negb (HASH =? c)) E = true).
+  { eapply forallb_impl; [|exact HE]. intros c Hc. cbv beta in Hc. apply andb_prop in Hc. apply Hc. }
+  assert (HEq : forallb (fun c => negb (QMARK =? c)) E = true).
+  { eapply forallb_impl; [|exact HE]. intros c Hc. cbv beta in Hc.
+    apply andb_prop in Hc. destruct Hc as [Hc _]. apply andb_prop in Hc. apply Hc. }
+  assert (Hqp : forallb printable (qtext q) = true).
+  { unfold query_ok in Hq. eapply forallb_impl; [|exact Hq]. intros c Hc. cbv beta in Hc. apply andb_prop in Hc. apply Hc. }
+  assert (Hqh : forallb (fun c => negb (HASH =? c)) (qtext q) = true).
+  { unfold query_ok in Hq. eapply forallb_impl; [|exact Hq]. intros c Hc. cbv beta in Hc. apply andb_prop in Hc. apply Hc. }
+  assert (Hnoq : forallb (fun c => negb (QMARK =? c)) (SLASH :: E) = true).
+  { cbn [forallb]. rewrite HEq. reflexivity. }
+  spl.
+  - cbn [forallb]. rewrite forallb_app, HEp. replace (printable SLASH) with true by reflexivity. cbn [andb].
+    destruct q as [s|]; cbn [qpart qtext forallb] in *; [|reflexivity].
+    replace (printable QMARK) with true by reflexivity. exact Hqp.
+  - apply partition1_absent. cbn [forallb]. rewrite forallb_app, HEh.
+    replace (negb (HASH =? SLASH)) with true by reflexivity. cbn [andb].
+    destruct q as [s|]; cbn [qpart qtext forallb] in *; [|reflexivity].
+    replace (negb (HASH =? QMARK)) with true by reflexivity. exact Hqh.
+  - destruct q as [s|]; cbn [qpart].
+    + change (SLASH :: E ++ QMARK :: s) with ((SLASH :: E) ++ QMARK :: s).
+      apply (partition1_app_stop QMARK (SLASH :: E) s Hnoq).
+    + rewrite app_nil_r. apply (partition1_absent QMARK _ Hnoq).
+Qed.
+
+Lemma netloc_facts a : netloc_ok a = true ->
+  a <> [] /\ forallb printable a = true /\
+  forallb (fun c => negb ((c =? SLASH) || (c =? QMARK) || (c =? HASH))) a = true /\
+  mem LBRACK a = false /\ mem RBRACK a = false /\ forallb (fun c => negb (c =? PCT)) a = true.
+Proof.
+  unfold netloc_ok. intro H. apply andb_prop in H. destruct H as [Hne H].
+  assert (G : forall (P : N -> bool), (forall c, netloc_char c = true -> P c = true) -> forallb P a = true).
+  { intros P HP. eapply forallb_impl; [|exact H]. exact HP. }
+  spl.
+  - destruct a; [discriminate|discriminate].
+  - apply G. intros c Hc. unfold netloc_char, printable in *. lia.
+  - apply G. intros c Hc. unfold netloc_char, printable, SLASH, QMARK, HASH, LBRACK, RBRACK, PCT in *. lia.
+  - apply mem_false_forall. apply G. intros c Hc. unfold netloc_char, printable, SLASH, QMARK, HASH, LBRACK, RBRACK, PCT in *. lia.
+  - apply mem_false_forall. apply G. intros c Hc. unfold netloc_char, printable, SLASH, QMARK, HASH, LBRACK, RBRACK, PCT in *. lia.
+  - apply G. intros c Hc. unfold netloc_char, printable, SLASH, QMARK, HASH, LBRACK, RBRACK, PCT in *. lia.
+Qed.
+
+(* the part of urlsplit after the scheme has been taken off, on //authority/path?query *)
+Lemma authority_split keep b q a : forallb (fun c => c <? 256) b = true -> query_ok q = true -> netloc_ok a = true ->
+  let url1 := [SLASH; SLASH] ++ a ++ SLASH :: pct_enc keep b ++ qpart q in
+  starts_with [SLASH; SLASH] url1 = true /\
+  take_while (fun c => negb ((c =? SLASH) || (c =? QMARK) || (c =? HASH))) (skipn 2 url1) = a /\
+  drop_while (fun c => negb ((c =? SLASH) || (c =? QMARK) || (c =? HASH))) (skipn 2 url1) = SLASH :: pct_enc keep b ++ qpart q.
+Proof.
+  intros Hb Hq Ha url1. destruct (netloc_facts a Ha) as [_ [_ [Hstop _]]]. unfold url1. cbn [app starts_with skipn].
+  rewrite !N.eqb_refl. cbn [andb]. spl; [reflexivity| |].
+  - apply take_while_app_stop; [exact Hstop|]. rewrite N.eqb_refl. reflexivity.
+  - apply drop_while_app_stop; [exact Hstop|]. rewrite N.eqb_refl. reflexivity.
+Qed.
+
+Lemma scheme_facts sch : scheme_ok sch = true ->
+  forallb printable sch = true /\ forallb (fun c => negb (COLON =? c)) sch = true /\ nonempty_str (lower sch) = true.
+Proof.
+  unfold scheme_ok. destruct sch as [|c r]; [discriminate|]. intro H. apply andb_prop in H. destruct H as [_ H].
+  spl.
+  - eapply forallb_impl; [|exact H]. intros x Hx. unfold scheme_char, is_alpha, is_upper, is_lower, is_digit, printable in *. lia.
+  - eapply forallb_impl; [|exact H]. intros x Hx. unfold scheme_char, is_alpha, is_upper, is_lower, is_digit, COLON in *. lia.
+  - reflexivity.
+Qed.
+
+Lemma urlsplit_absolute keep b q a sch :
+  forallb (fun c => c <? 256) b = true -> query_ok q = true -> netloc_ok a = true -> scheme_ok sch = true ->
+  urlsplit (sch ++ COLON :: [SLASH; SLASH] ++ a ++ SLASH :: pct_enc keep b ++ qpart q)
+  = Some {| u_scheme := lower sch; u_netloc := a; u_path := SLASH :: pct_enc keep b; u_query := qtext q; u_fragment := [] |}.
+Proof.
+  intros Hb Hq Ha Hs. destruct (pct_enc_split keep b q Hb Hq) as [Hp [Hh Hqm]].
+  destruct (netloc_facts a Ha) as [_ [Hap [_ [Hlb [Hrb _]]]]].
+  destruct (scheme_facts sch Hs) as [Hsp [Hsc _]].
+  destruct (authority_split keep b q a Hb Hq Ha) as [Hss [Htw Hdw]].
+  set (E := pct_enc keep b) in *. set (url1 := [SLASH; SLASH] ++ a ++ SLASH :: E ++ qpart q) in *.
+  unfold urlsplit.
+  assert (Hall : forallb printable (sch ++ COLON :: url1) = true).
+  { rewrite forallb_app, Hsp. cbn [forallb andb]. replace (printable COLON) with true by reflexivity.
+    unfold url1. cbn [app forallb]. replace (printable SLASH) with true by reflexivity. cbn [andb].
+    rewrite forallb_app, Hap. exact Hp. }
+  rewrite Hall. cbn [negb]. rewrite (partition1_app_stop COLON sch url1 Hsc).
+  unfold scheme_ok in Hs. destruct sch as [|c r]; [discriminate|]. rewrite Hs.
+  rewrite Hss, Htw, Hdw, Hlb, Hrb. cbn [orb]. rewrite Hh, Hqm.
+  destruct q; reflexivity.
+Qed.
+
+Lemma urlsplit_double_slash keep b q a :
+  forallb (fun c => c <? 256) b = true -> query_ok q = true -> netloc_ok a = true ->
+  urlsplit ([SLASH; SLASH] ++ a ++ SLASH :: pct_enc keep b ++ qpart q)
+  = Some {| u_scheme := []; u_netloc := a; u_path := SLASH :: pct_enc keep b; u_query := qtext q; u_fragment := [] |}.
+Proof.
+  intros Hb Hq Ha. destruct (pct_enc_split keep b q Hb Hq) as [Hp [Hh Hqm]].
+  destruct (netloc_facts a Ha) as [_ [Hap [_ [Hlb [Hrb _]]]]].
+  destruct (authority_split keep b q a Hb Hq Ha) as [Hss [Htw Hdw]].
+  set (E := pct_enc keep b) in *. set (url1 := [SLASH; SLASH] ++ a ++ SLASH :: E ++ qpart q) in *.
+  unfold urlsplit.
+  assert (Hall : forallb printable url1 = true).
+  { unfold url1. cbn [app forallb]. replace (printable SLASH) with true by reflexivity. cbn [andb].
+    rewrite forallb_app, Hap. exact Hp. }
+  rewrite Hall. cbn [negb]. unfold url1 in *. clear url1. cbn [app] in *.
+  cbn [partition1]. replace (COLON =? SLASH) with false by reflexivity.
+  destruct (partition1 COLON (a ++ SLASH :: E ++ qpart q)) as [a0 [bb|]];
+    cbn [is_alpha is_upper is_lower andb]; replace (is_alpha SLASH) with false by reflexivity; cbn [andb];
+    rewrite Hss, Htw, Hdw, Hlb, Hrb; cbn [orb]; rewrite Hh, Hqm; destruct q; reflexivity.
+Qed.
+
+Lemma pct_decode_lit a r : forallb (fun c => negb (c =? PCT)) a = true -> pct_decode (a ++ r) = a ++ pct_decode r.
+Proof.
+  induction a as [|c a IH]; cbn [app forallb]; intro H; [reflexivity|].
+  apply andb_prop in H. destruct H as [Hc Ha]. cbn [pct_decode].
+  destruct (c =? PCT); [discriminate|]. rewrite IH by exact Ha. reflexivity.
+Qed.
+
+Lemma query_dance q : query_ok q = true -> wsgi_encoding_dance (qtext q) = qtext q.
+Proof.
+  intro Hq. unfold wsgi_encoding_dance, latin1_decode. apply utf8_encode_ascii. apply printable_ascii.
+  unfold query_ok in Hq. eapply forallb_impl; [|exact Hq]. intros c Hc. cbv beta in Hc. apply andb_prop in Hc. apply Hc.
+Qed.
+
+(* absolute-form target scheme://netloc/path?query: PATH_INFO / QUERY_STRING are those of the path
+   part and HTTP_HOST is the netloc, whatever Host header was sent *)
+Lemma environ_absolute keep b q a sch hs :
+  forallb (fun c => c <? 256) b = true -> query_ok q = true -> netloc_ok a = true -> scheme_ok sch = true ->
+  exists e, make_environ (sch ++ COLON :: [SLASH; SLASH] ++ a ++ SLASH :: pct_enc keep b ++ qpart q) hs = Some e /\
+            en_path_info e = wsgi_encoding_dance (utf8_decode_replace (SLASH :: b)) /\
+            en_query_string e = qtext q /\
+            env_get HTTP_HOST (en_headers e) = Some a.
+Proof.
+  intros Hb Hq Ha Hs. unfold make_environ. rewrite (urlsplit_absolute keep b q a sch Hb Hq Ha Hs).
+  cbn [u_scheme u_netloc u_path u_query]. destruct (scheme_facts sch Hs) as [_ [_ Hne]].
+  destruct (netloc_facts a Ha) as [Hane _].
+  unfold path_info_gen, host_override_gen. rewrite Hne.
+  replace (nonempty_str a) with true by (destruct a; [congruence|reflexivity]). cbn [negb andb].
+  eexists. split; [reflexivity|]. cbn [en_path_info en_query_string en_headers]. spl.
+  - unfold unquote. cbn [pct_decode]. replace (SLASH =? PCT) with false by reflexivity.
+    rewrite pct_decode_enc by exact Hb. reflexivity.
+  - apply query_dance. exact Hq.
+  - rewrite env_get_set. unfold HTTP_HOST, HTTP_. cbn [app]. rewrite list_eqb_refl. reflexivity.
+Qed.
+
+(* the repair for a target starting with two slashes (urlsplit takes the first segment for an
+   authority): the segment is put back in front of the path *)
+Lemma environ_double_slash keep b q a hs :
+  forallb (fun c => c <? 256) b = true -> query_ok q = true -> netloc_ok a = true ->
+  exists e, make_environ ([SLASH; SLASH] ++ a ++ SLASH :: pct_enc keep b ++ qpart q) hs = Some e /\
+            en_path_info e = wsgi_encoding_dance (utf8_decode_replace (SLASH :: a ++ SLASH :: b)) /\
+            en_query_string e = qtext q /\
+            en_headers e = env_headers hs [].
+Proof.
+  intros Hb Hq Ha. unfold make_environ. rewrite (urlsplit_double_slash keep b q a Hb Hq Ha).
+  cbn [u_scheme u_netloc u_path u_query]. destruct (netloc_facts a Ha) as [Hane [_ [_ [_ [_ Hpct]]]]].
+  unfold path_info_gen, host_override_gen.
+  replace (nonempty_str a) with true by (destruct a; [congruence|reflexivity]). cbn [nonempty_str negb andb].
+  eexists. split; [reflexivity|]. cbn [en_path_info en_query_string en_headers]. spl.
+  - unfold unquote. cbn [app pct_decode]. replace (SLASH =? PCT) with false by reflexivity.
+    rewrite pct_decode_lit by exact Hpct. cbn [pct_decode]. replace (SLASH =? PCT) with false by reflexivity.
+    rewrite pct_decode_enc by exact Hb. reflexivity.
+  - apply query_dance. exact Hq.
+  - reflexivity.
+Qed.
